@@ -291,12 +291,33 @@ func (r *vfMqResRun) subscribe(d *vfMqResID) {
 	n := rapid.IntRange(1, 2).Draw(r.rt, "nFilters")
 	var fs []string
 	var qs []byte
+	var held []string
+	for f := range d.sess.topics {
+		held = append(held, f)
+	}
+	sort.Strings(held)
+	resub := false
 	for i := 0; i < n; i++ {
+		if len(held) > 0 && rapid.IntRange(0, 2).Draw(r.rt, "resubscribeHeld?") == 0 {
+			// re-subscribe a filter the session holds with the other QoS (MQTT 3.1.1 3.8.4: the new
+			// subscription replaces the old one); may share the list with a new filter
+			f := rapid.SampledFrom(held).Draw(r.rt, "heldFilter")
+			fs = append(fs, f)
+			qs = append(qs, 1-d.sess.topics[f])
+			resub = true
+			continue
+		}
 		fs = append(fs, rapid.SampledFrom(vfMqResFilters).Draw(r.rt, "filter"))
 		qs = append(qs, byte(rapid.IntRange(0, 1).Draw(r.rt, "qos")))
 	}
 	r.log("%s: sub(%s)", d.cid, vfC16FmtSubsShared(fs, qs))
 	r.vf.Class("step:subscribe")
+	if resub {
+		r.vf.Class("step:resubscribe-held-filter-with-other-qos")
+		if n > 1 {
+			r.vf.Class("resubscribe-in-a-list-with-another-filter")
+		}
+	}
 	if err := d.live.Subscribe(fs, qs); err != nil {
 		r.liveGone(d, "subscribe", err)
 		return
@@ -457,7 +478,10 @@ func (r *vfMqResRun) check() {
 			d.live = nil
 		}
 	}
-	type probe struct{ topic, payload string }
+	type probe struct {
+		topic, payload string
+		q              int
+	}
 	var probes []probe
 	for _, t := range vfMqResTopics {
 		want := map[string]bool{}
@@ -502,16 +526,34 @@ func (r *vfMqResRun) check() {
 					return
 				}
 			case got:
+				// C14: the QoS associated with a routed client is the QoS of one of its own matching
+				// (current) subscriptions
+				ok := false
+				var own []int
+				for f, q := range d.sess.topics {
+					if vfMqMatch(f, t) {
+						own = append(own, int(q))
+						if q == subs[d.cid] {
+							ok = true
+						}
+					}
+				}
+				if !ok {
+					sort.Ints(own)
+					if r.violation("routed-qos-not-of-a-live-matching-subscription", "findSubscribers(%s) reports QoS %d for %s, its matching subscriptions have QoS %v", t, subs[d.cid], d.cid, own) {
+						return
+					}
+				}
 				r.vf.Class("routed-as-expected")
 			default:
 				r.vf.Class("not-routed-as-expected")
 			}
 		}
 		r.seq++
-		probes = append(probes, probe{t, fmt.Sprintf("r%d", r.seq)})
+		probes = append(probes, probe{t, fmt.Sprintf("r%d", r.seq), rapid.IntRange(0, 1).Draw(r.rt, "probeQoS")})
 	}
 	for _, p := range probes {
-		if code := r.rig.Publish(p.topic, 0, p.payload); code != 200 {
+		if code := r.rig.Publish(p.topic, p.q, p.payload); code != 200 {
 			r.inconclusive("http publish", fmt.Errorf("status %d", code))
 		}
 	}
@@ -531,14 +573,21 @@ func (r *vfMqResRun) check() {
 			continue
 		}
 		for _, p := range probes {
-			want := false
-			for f := range d.sess.topics {
+			want, lowerOnly := false, false
+			for f, q := range d.sess.topics {
 				if vfMqMatch(f, p.topic) {
-					want = true
+					if int(q) >= p.q {
+						want = true
+					} else {
+						lowerOnly = true
+					}
 				}
 			}
 			got := len(d.live.Publishes(p.payload)) > 0
 			switch {
+			case got && !want && lowerOnly:
+				// C15 leaves open what a subscriber below the message QoS gets
+				r.vf.Class("ambiguous-lower-qos-subscriber-got-a-copy")
 			case got && !want:
 				key := "delivered-without-subscription"
 				for f := range d.orphaned {
@@ -554,7 +603,7 @@ func (r *vfMqResRun) check() {
 					return
 				}
 			case got:
-				r.vf.Class("probe-delivered")
+				r.vf.Class(fmt.Sprintf("probe-delivered-q%d", p.q))
 			}
 		}
 	}
